@@ -17,8 +17,11 @@ Rec     == ndJsonDeserialize(IOEnv.TRACE)
 DictIn  == JsonDeserialize(IOEnv.DICT)
 Vals    == JsonDeserialize(IOEnv.VALUES)
 
-VARIABLES st, l, skip
-vars == <<st, l, skip>>
+VARIABLES st, l, skip, cyc
+vars == <<st, l, skip, cyc>>
+(* cyc: bookkeeping for C15 - the tree at the start of the repetitions and   *)
+(* the file length after each repetition of a net-zero cycle.               *)
+NoCyc == [based |-> FALSE, base |-> EmptyTree, flens |-> <<>>]
 
 Has(e, f) == f \in DOMAIN e
 HName(e)  == IF Has(e, "h") THEN e.h ELSE ""
@@ -124,11 +127,24 @@ HeavyChecks(s1, s2, e) ==
      <<"C16", "strict=>permissive",
         (Has(e, "reopen") /\ ReopenOK(e, "strict")) =>
            (ReopenOK(e, "permissive") /\ e.reopen.permissive.ok = e.reopen.strict.ok), FALSE>>,
-     <<"C10", "bytes-unchanged",
-        (IsRefusal(e) /\ Has(e, "imghash") /\ PrevHash(e) # "?") => e.imghash = PrevHash(e), FALSE>>,
      <<"C17", "new-storage-times",
         (Has(e, "t0") /\ e.res.k = "ok" /\ e.op # "touch") => TimesBounded(s1, s2, e), FALSE>> >>
   \o [i \in 1..Len(wfn) |-> <<"C03", wfn[i], FALSE, FALSE>>]
+
+(* Checks evaluated on every event, heavy or not *)
+LightChecks(s2, e) ==
+  << <<"C10", "bytes-unchanged",
+        (IsRefusal(e) /\ Has(e, "imghash") /\ PrevHash(e) # "?") => e.imghash = PrevHash(e), FALSE>> >>
+  \o (IF Has(e, "mark") /\ e.mark = "rep_end" /\ cyc.based
+      THEN << <<"GEN", "cycle-not-net-zero", s2.tree = cyc.base, FALSE>>,
+              <<"C15", "no-growth",
+                 (s2.tree = cyc.base /\ Len(cyc.flens) >= 2) => e.flen = cyc.flens[2], FALSE>> >>
+      ELSE <<>>)
+CycNext(s2, e) ==
+  IF ~Has(e, "mark") THEN cyc
+  ELSE IF e.mark = "cycle_base" THEN [based |-> TRUE, base |-> s2.tree, flens |-> <<>>]
+  ELSE IF e.mark = "rep_end" THEN [cyc EXCEPT !.flens = Append(@, e.flen)]
+  ELSE cyc
 
 Failed(cs)   == SelectSeq(cs, LAMBDA c : ~c[3])
 AnyFatal(cs) == \E i \in 1..Len(cs) : ~cs[i][3] /\ cs[i][4]
@@ -142,19 +158,19 @@ FromWalk(w) ==
      [kind |-> r.k, name |-> r.n, data |-> r.d, clsid |-> r.c, bits |-> r.b,
       ct |-> r.ct, mt |-> r.mt]]
 
-Init == st = InitState /\ l = 1 /\ skip = FALSE
+Init == st = InitState /\ l = 1 /\ skip = FALSE /\ cyc = NoCyc
 
 ResetStep(e) ==
   LET s0 == IF Has(e, "tree") THEN [tree |-> FromWalk(e.tree), handles |-> <<>>] ELSE InitState
       okres == e.res.k = "ok"
       cs == IF okres /\ e.heavy THEN HeavyChecks(s0, s0, [e EXCEPT !.res = [k |-> "ok", v |-> "unit"]] @@ [op |-> "reset"]) ELSE <<>>
-  IN /\ st' = s0
+  IN /\ st' = s0 /\ cyc' = NoCyc
      /\ (IF okres THEN TRUE ELSE Fail("OPEN", e.res.k, e))
      /\ Report(cs, e)
      /\ skip' = (~okres \/ AnyFatal(cs))
 
 OpStep(e) ==
-  IF skip THEN UNCHANGED <<st, skip>>
+  IF skip THEN UNCHANGED <<st, skip, cyc>>
   ELSE
   LET outs  == Apply(st, e)
       match == {o \in outs : ResMatch(o.res, e)}
@@ -162,19 +178,21 @@ OpStep(e) ==
   IF match = {}
   THEN /\ Fail(IF e.res.k = "panic" THEN "PANIC" ELSE "C01", "result", e)
        /\ PrintT(<<"EXPECTED", {o.res : o \in outs}, "GOT", e.res>>)
-       /\ skip' = TRUE /\ UNCHANGED st
+       /\ skip' = TRUE /\ UNCHANGED <<st, cyc>>
   ELSE IF ~e.heavy
   THEN IF Cardinality({o.st : o \in match}) > 1
        THEN /\ PrintT(<<"NOTE", "ambiguous-light", e.hi, e.oi, l>>)
-            /\ skip' = TRUE /\ UNCHANGED st
-       ELSE /\ st' = (CHOOSE o \in match : TRUE).st /\ skip' = FALSE
+            /\ skip' = TRUE /\ UNCHANGED <<st, cyc>>
+       ELSE LET s2 == (CHOOSE o \in match : TRUE).st IN
+            /\ Report(LightChecks(s2, e), e)
+            /\ st' = s2 /\ skip' = FALSE /\ cyc' = CycNext(s2, e)
   ELSE
   LET pick == IF Cardinality(match) = 1 THEN CHOOSE o \in match : TRUE
               ELSE LET good == {o \in match : ~AnyFatal(HeavyChecks(st, o.st, e))} IN
                    IF good # {} THEN CHOOSE o \in good : TRUE ELSE CHOOSE o \in match : TRUE
-      cs   == HeavyChecks(st, pick.st, e)
+      cs   == HeavyChecks(st, pick.st, e) \o LightChecks(pick.st, e)
   IN /\ Report(cs, e)
-     /\ st' = pick.st
+     /\ st' = pick.st /\ cyc' = CycNext(pick.st, e)
      /\ skip' = AnyFatal(cs)
 
 Step ==
